@@ -118,6 +118,7 @@ func (c *coalescing) Run(ctx context.Context, ch chan<- struct{}) error {
 	defer cancel()
 
 	for {
+		verifPoint("loop.top")
 		// If the timer doesn't exist yet, we're waiting for the first event (which
 		// will fire immediately when received).
 		var timerCh <-chan time.Time
@@ -144,6 +145,7 @@ func (c *coalescing) Run(ctx context.Context, ch chan<- struct{}) error {
 }
 
 func (c *coalescing) handleInputCh(ctx context.Context, ch chan<- struct{}) {
+	verifPoint("input.recv")
 	c.lock.Lock()
 	defer c.lock.Unlock()
 
@@ -184,6 +186,7 @@ func (c *coalescing) handleInputCh(ctx context.Context, ch chan<- struct{}) {
 }
 
 func (c *coalescing) handleTimerFired(ctx context.Context, ch chan<- struct{}) {
+	verifPoint("timer.recv")
 	c.lock.Lock()
 	defer c.lock.Unlock()
 	c.fireEvent(ctx, ch)
